@@ -33,8 +33,8 @@ OPERATION_DESCRIPTION = {
 COMPARE_OP_NAMES = {
     "==": "Eq",
     "<": "Lt",
-    "<=": "Lte",
-    ">=": "Gte",
+    "<=": "LtE",
+    ">=": "GtE",
     ">": "Gt",
     "!=": "NotEq",
     "is": "Is",
@@ -53,8 +53,8 @@ BIN_OP_NAMES = {
     "//": "FloorDiv",
     "%": "Mod",
     "**": "Pow",
-    ">>": "LShift",
-    "<<": "RShift",
+    "<<": "LShift",
+    ">>": "RShift",
     "|": "BitOr",
     "^": "BitXor",
     "&": "BitAnd",
